@@ -2,5 +2,5 @@ CONSTANTS
   N = 3
   Defects = {}
 SPECIFICATION Spec
-INVARIANTS CountedRight NoSpuriousTimeout
+INVARIANTS OneResultPerCheck NoCheckLost CountedRight
 CHECK_DEADLOCK FALSE
